@@ -694,6 +694,16 @@ pub fn history(tr: &mut Tracer, w: &mut World, rng: &mut Rng, p: &Profile) {
                             tr.step(w, &Op::Vamm { sender: STRANGER, v, m: VMsg::SetOpen(false) });
                             tr.step(w, &Op::Vamm { sender: ID_OWNER, v, m: VMsg::SetOpen(true) });
                         }
+                        // funding goes on meanwhile (a surplus still goes to the engine's fund)
+                        if rng.chance(1, 2) {
+                            let st = vamm_state(w, v);
+                            let now = w.app.block_info().time.seconds();
+                            if st.next_funding_time > now { tr.step(w, &Op::Block { dt: st.next_funding_time - now + rng.below(3), dh: 1 }); }
+                            if rng.chance(1, 2) { if let Some(sp) = w.q::<Uint128>(&w.addr(v), &mv::QueryMsg::SpotPrice {}) { let nowt = w.app.block_info().time.seconds();
+                                let pz = if rng.chance(1, 2) { sp.u128() * 9 / 10 } else { sp.u128() * 11 / 10 };
+                                tr.step(w, &Op::Feed { sender: ID_OWNER, m: PMsg::Append { price: pz, t: nowt } }); } }
+                            tr.step(w, &Op::Eng { sender: ID_OWNER, funds: 0, m: EMsg::PayFunding { vamm: v } });
+                        }
                         // trading goes on meanwhile: the fees still go where the engine's configuration says
                         let op = mk_open(w, t, v, if rng.chance(1, 2) { Side::Buy } else { Side::Sell }, d * (1 + rng.below(20) as u128), d * 2, 0); tr.step(w, &op);
                         if rng.chance(1, 2) { let fees = w.position(v, t).map(|p| calc_fee(w, v, p.notional.u128())).unwrap_or(0);
